@@ -357,9 +357,9 @@ func main() {
 		}
 		rn.run("replay", string(b), nil, payloadsFor(r, 8))
 	} else {
-		nGen, nMut, sweepStep := 420, 120, 7
+		nGen, nMut, sweepStep := 1500, 400, 5
 		if *tier == "thorough" {
-			nGen, nMut, sweepStep = 12000, 3000, 1
+			nGen, nMut, sweepStep = 40000, 8000, 1
 		}
 		for i := 0; i < nGen; i++ {
 			cr := r.Fork()
